@@ -471,6 +471,11 @@ def check_case(case, ctx):
         ctx.label("gen=%s" % case["kind"])
     ctx.nontrivial(nt)
     planner = make_planner(boxes, case["reg"])
+    if case.get("dmode") is not None:
+        # planner configuration that has nothing to do with the obstruction test (distance mode of the tree
+        # builder): the answer must not depend on it
+        planner.dmode = int(case["dmode"])
+        ctx.label("dmode=%d" % int(case["dmode"]))
     if len(planner.obstructions) != len(boxes):
         raise Violation("addObstruction registered %d obstructions for %d boxes" % (len(planner.obstructions), len(boxes)))
     na = make_node(p, case["rot_p"])
@@ -610,7 +615,8 @@ def float_pair_cases(draw):
     box = draw(float_boxes())
     p, q, kind = draw(segments_near(box))
     return {"p": p, "q": q, "boxes": [box], "rot_p": draw(_rot()), "rot_q": draw(_rot()),
-            "reg": draw(st.sampled_from(["list", "list", "tm"])), "exact": False, "kind": kind, "also_reversed": True}
+            "reg": draw(st.sampled_from(["list", "list", "tm"])), "exact": False, "kind": kind, "also_reversed": True,
+            "dmode": draw(st.sampled_from([None, 0, 1, 1]))}
 
 
 @st.composite
@@ -654,7 +660,8 @@ def box_set_cases(draw):
         # half-integer cases fall under the float rule (compared when the answer is robust to +-1e-9)
         exact = not half
     return {"p": p, "q": q, "boxes": boxes, "rot_p": draw(_rot()), "rot_q": draw(_rot()),
-            "reg": draw(st.sampled_from(["list", "list", "tm"])), "exact": exact, "kind": kind, "also_reversed": True}
+            "reg": draw(st.sampled_from(["list", "list", "tm"])), "exact": exact, "kind": kind, "also_reversed": True,
+            "dmode": draw(st.sampled_from([None, 0, 1, 1]))}
 
 
 CLAUSES = [
